@@ -257,6 +257,22 @@ Proof.
     apply IH; assumption.
 Qed.
 
+(* ... and so does the scan of answer and authority (T1 tsig_scan_all_sections) *)
+Lemma records_scan_ok m p tys e lim : RecordsAt m p tys e -> e <= lim ->
+  Forall (fun ty => ty <> RTYPE_TSIG) tys ->
+  forall fuel, (length tys < fuel)%nat -> scan_records fuel m p lim (N.of_nat (length tys)) = Ok e.
+Proof.
+  induction 1 as [p|p ty e1 tys e Hr Hrs IH]; intros Hl Hno fuel Hf.
+  - destruct fuel; [lia|]. reflexivity.
+  - inversion Hno as [|? ? Hr0 Hno']; subst. destruct fuel; [cbn in Hf; lia|]. cbn [scan_records length].
+    destruct (N.eqb_spec (N.of_nat (S (length tys))) 0); [lia|].
+    pose proof (RecordsAt_end _ _ _ _ Hrs).
+    destruct (record_ok m p ty e1 lim Hr ltac:(lia)) as [_ (h & Hp & Hty & Hnx)]. rewrite Hp. cbn [to_err bind].
+    rewrite Hty. destruct (N.eqb_spec ty RTYPE_TSIG); [contradiction|]. rewrite Hnx.
+    replace (N.of_nat (S (length tys)) - 1) with (N.of_nat (length tys)) by lia.
+    apply IH; auto. cbn [length] in Hf. lia.
+Qed.
+
 (* each question / record occupies at least one octet: counts are bounded by the extent *)
 Lemma QuestionsAt_count m p n e : QuestionsAt m p n e -> p + N.of_nat n <= e.
 Proof. induction 1 as [|p e1 n e Hq _ IH]; [lia|]. apply QuestionAt_end in Hq. lia. Qed.
@@ -266,12 +282,13 @@ Proof. induction 1 as [|p ty e1 tys e Hr _ IH]; [cbn; lia|]. apply RecordAt_end 
 (* ------------------------------------------------------------ a whole message *)
 (* msg consists of a header with the given counts, nq questions, and three
    record sections with the given record types, and nothing else; its
-   additional section holds no TSIG record *)
+   record sections hold no TSIG record *)
 Definition MsgAt (msg : bytes) (nq : nat) (an ns ar : list N) : Prop :=
   12 <= mlen msg /\ hdr_wf msg /\
   qdcount msg = N.of_nat nq /\ ancount msg = N.of_nat (length an) /\
   nscount msg = N.of_nat (length ns) /\ arcount msg = N.of_nat (length ar) /\
   Forall (fun ty => ty <> RTYPE_TSIG) ar /\
+  Forall (fun ty => ty <> RTYPE_TSIG) an /\ Forall (fun ty => ty <> RTYPE_TSIG) ns /\
   exists p1 p2 p3, QuestionsAt msg 12 nq p1 /\ RecordsAt msg p1 an p2 /\ RecordsAt msg p2 ns p3 /\
                    RecordsAt msg p3 ar (mlen msg).
 
@@ -522,7 +539,7 @@ Section Signed.
 
   Theorem from_message_signed : from_message w = Ok signed_tsig.
   Proof.
-    destruct Hmsg as (H12' & Hw & Q & A & Nn & R & Hno & p1 & p2 & p3 & HQ & HA & HN & HR).
+    destruct Hmsg as (H12' & Hw & Q & A & Nn & R & Hno & Hnoan & Hnons & p1 & p2 & p3 & HQ & HA & HN & HR).
     destruct counts_w as (C1 & C2 & C3 & C4 & _).
     pose proof agree_w as Ag. pose proof mlen_w as Hmw.
     pose proof (QuestionsAt_count _ _ _ _ HQ) as K1. pose proof (RecordsAt_count _ _ _ _ HA) as K2.
@@ -540,8 +557,12 @@ Section Signed.
     { eapply RecordsAt_agree; [exact Ag | lia | exact HR]. }
     unfold HEADER_LEN.
     rewrite (questions_ok w 12 nq p1 (mlen w) HQ') by lia. cbn [to_err bind].
-    rewrite (records_skip_ok w p1 an p2 (mlen w) HA') by lia. cbn [to_err bind].
-    rewrite (records_skip_ok w p2 ns p3 (mlen w) HN') by lia. cbn [to_err bind].
+    assert (TAIL : find_tsig (S (length w)) w p3 (mlen w) (N.of_nat (length ar) + 1) = Ok signed_tsig);
+      [|destruct tsig_scan_all_sections;
+        [rewrite (records_scan_ok w p1 an p2 (mlen w) HA') by (auto; lia); cbn [bind];
+         rewrite (records_scan_ok w p2 ns p3 (mlen w) HN') by (auto; lia); cbn [bind]; exact TAIL
+        |rewrite (records_skip_ok w p1 an p2 (mlen w) HA') by lia; cbn [to_err bind];
+         rewrite (records_skip_ok w p2 ns p3 (mlen w) HN') by lia; cbn [to_err bind]; exact TAIL]].
     replace (S (length w)) with (length ar + S (length w - length ar))%nat by lia.
     rewrite (find_tsig_steps w p3 ar L (mlen w) HR') by (auto; lia).
     cbn [find_tsig]. change (1 =? 0) with false. cbv iota.
@@ -677,7 +698,7 @@ End Full.
 Example ex_msg_layout : MsgAt ex_msg 1 [] [] [].
 Proof.
   unfold MsgAt. split; [vm_compute; discriminate|]. split; [unfold hdr_wf; cbn [firstn ex_msg]; repeat constructor; lia|].
-  repeat (split; [reflexivity|]). split; [constructor|].
+  repeat (split; [reflexivity|]). split; [constructor|]. split; [constructor|]. split; [constructor|].
   exists 33, 33, 33. split; [|repeat split; constructor].
   eapply QsA_cons; [|constructor].
   exists 29. split; [|split; [reflexivity|split; [vm_compute; discriminate|lia]]].
